@@ -13,6 +13,21 @@ func (e StdEng) StackDense(t DenseTensor, axis int, others ...DenseTensor) (retV
 		return
 	}
 
+	// every operand contributes one block of t's shape
+	for _, ot := range others {
+		os := ot.Shape()
+		if len(os) != opdims {
+			err = errors.Errorf(dimMismatch, opdims, len(os))
+			return
+		}
+		for i, d := range t.Shape() {
+			if os[i] != d {
+				err = errors.Errorf(shapeMismatch, t.Shape(), os)
+				return
+			}
+		}
+	}
+
 	newShape := Shape(BorrowInts(opdims + 1))
 	newShape[axis] = len(others) + 1
 	shape := t.Shape()
